@@ -48,6 +48,11 @@ pub enum UStep {
         lost: Vec<u8>,
         #[serde(with = "crate::scenario::hexvec")]
         after: Vec<Vec<u8>>,
+        /// just before crashing the peer sends one datagram [PING reqi 0x41, keep-alive]; the
+        /// application reads the first packet before the crash and the buffered keep-alive while
+        /// the peer is down (its reply meets the queued ICMP error)
+        #[serde(default)]
+        buffered_ka: bool,
     },
     /// the application reads while nothing is queued: the socket's (short) read timeout makes
     /// the adaptor's receive fail with a transient error; later datagrams must be unaffected
@@ -75,7 +80,15 @@ enum UEv {
     Idle { res: AppRes },
     /// peer restarted; results of the write while it was down and of the writes afterwards,
     /// each with the datagrams the new peer socket received right after it
-    Bounced { lost: AppRes, after: Vec<(AppRes, Vec<String>)> },
+    Bounced {
+        lost: AppRes,
+        after: Vec<(AppRes, Vec<String>)>,
+        /// buffered_ka only: result of the read before the crash, of the read while the peer was
+        /// down, and of the reads after the restart up to the sentinel (with datagrams seen)
+        pre: Option<AppRes>,
+        down: Option<AppRes>,
+        tail: Vec<(AppRes, Vec<String>)>,
+    },
 }
 
 struct UdpRun {
@@ -172,7 +185,21 @@ fn run_udp(sc: &UdpSc) -> UdpRun {
                             }
                         }
                     },
-                    UStep::Bounce { lost, after } => {
+                    UStep::Bounce { lost, after, buffered_ka } => {
+                        let rd = |framed: &mut insim::net::blocking_impl::Framed| match guarded(|| framed.read()) {
+                            Err(p) => AppRes::Other(format!("panic: {}", p)),
+                            Ok(Ok(p)) => AppRes::Pkt(format!("{:?}", p)),
+                            Ok(Err(e)) => AppRes::from_err(&e),
+                        };
+                        let mut pre = None;
+                        if *buffered_ka {
+                            let mut d = gen::tiny(sc.mode, 0x41, 3);
+                            d.extend_from_slice(&sc.mode.pong());
+                            if peer.send(&d).is_err() {
+                                return UdpRun { events, harness_error: Some("peer send".into()) };
+                            }
+                            pre = Some(rd(&mut framed));
+                        }
                         // crash: the peer's socket goes away
                         let placeholder = match UdpSocket::bind("127.0.0.1:0") {
                             Ok(s) => s,
@@ -189,6 +216,7 @@ fn run_udp(sc: &UdpSc) -> UdpRun {
                             None => AppRes::Done,
                         };
                         std::thread::sleep(Duration::from_millis(3));
+                        let down = if *buffered_ka { Some(rd(&mut framed)) } else { None };
                         // restart on the same port
                         match rebind(peer_addr, conn_addr) {
                             Some(s) => peer = s,
@@ -200,7 +228,20 @@ fn run_udp(sc: &UdpSc) -> UdpRun {
                             let r = to_res(guarded(|| framed.write(p)));
                             results.push((r, take_dgrams(&peer)));
                         }
-                        events.push(UEv::Bounced { lost: lost_res, after: results });
+                        let mut tail = Vec::new();
+                        if *buffered_ka {
+                            // sentinel from the restarted peer: whatever is still owed comes before it
+                            let _ = peer.send(&gen::tiny(sc.mode, 0x42, 3));
+                            for _ in 0..3 {
+                                let r = rd(&mut framed);
+                                let stop = matches!(&r, AppRes::Pkt(d) if d.contains("RequestId(66)")) || !matches!(r, AppRes::Pkt(_));
+                                tail.push((r, take_dgrams(&peer)));
+                                if stop {
+                                    break;
+                                }
+                            }
+                        }
+                        events.push(UEv::Bounced { lost: lost_res, after: results, pre, down, tail });
                     },
                     UStep::IdleRead => {
                         let r = guarded(|| framed.read());
@@ -257,7 +298,18 @@ fn run_udp(sc: &UdpSc) -> UdpRun {
                                 }
                             }
                         },
-                        UStep::Bounce { lost, after } => {
+                        UStep::Bounce { lost, after, buffered_ka } => {
+                            let mut pre = None;
+                            if *buffered_ka {
+                                let mut d = gen::tiny(sc.mode, 0x41, 3);
+                                d.extend_from_slice(&sc.mode.pong());
+                                peer.send(&d).map_err(|e| e.to_string())?;
+                                pre = Some(match tokio::time::timeout(OP_TIMEOUT, framed.read()).await {
+                                    Err(_) => AppRes::Other("no result".into()),
+                                    Ok(Ok(p)) => AppRes::Pkt(format!("{:?}", p)),
+                                    Ok(Err(e)) => AppRes::from_err(&e),
+                                });
+                            }
                             let placeholder = UdpSocket::bind("127.0.0.1:0").map_err(|e| e.to_string())?;
                             drop(std::mem::replace(&mut peer, placeholder));
                             let lost_res = match ref_decode_packet(sc.mode, lost).1 {
@@ -269,6 +321,15 @@ fn run_udp(sc: &UdpSc) -> UdpRun {
                                 None => AppRes::Done,
                             };
                             tokio::time::sleep(Duration::from_millis(3)).await;
+                            let down = if *buffered_ka {
+                                Some(match tokio::time::timeout(OP_TIMEOUT, framed.read()).await {
+                                    Err(_) => AppRes::Other("no result".into()),
+                                    Ok(Ok(p)) => AppRes::Pkt(format!("{:?}", p)),
+                                    Ok(Err(e)) => AppRes::from_err(&e),
+                                })
+                            } else {
+                                None
+                            };
                             peer = rebind(peer_addr, conn_addr).ok_or_else(|| "rebind".to_string())?;
                             let mut results = Vec::new();
                             for f in after {
@@ -280,7 +341,23 @@ fn run_udp(sc: &UdpSc) -> UdpRun {
                                 };
                                 results.push((r, take_dgrams(&peer)));
                             }
-                            events.push(UEv::Bounced { lost: lost_res, after: results });
+                            let mut tail = Vec::new();
+                            if *buffered_ka {
+                                let _ = peer.send(&gen::tiny(sc.mode, 0x42, 3));
+                                for _ in 0..3 {
+                                    let r = match tokio::time::timeout(OP_TIMEOUT, framed.read()).await {
+                                        Err(_) => AppRes::Other("no result".into()),
+                                        Ok(Ok(p)) => AppRes::Pkt(format!("{:?}", p)),
+                                        Ok(Err(e)) => AppRes::from_err(&e),
+                                    };
+                                    let stop = matches!(&r, AppRes::Pkt(d) if d.contains("RequestId(66)")) || !matches!(r, AppRes::Pkt(_));
+                                    tail.push((r, take_dgrams(&peer)));
+                                    if stop {
+                                        break;
+                                    }
+                                }
+                            }
+                            events.push(UEv::Bounced { lost: lost_res, after: results, pre, down, tail });
                         },
                         UStep::IdleRead => {},
                         UStep::Write(f) => {
@@ -441,6 +518,7 @@ impl Prop for C08 {
                 steps.push(UStep::Bounce {
                     lost: gen::gen_out_frame(rng, mode, stats),
                     after: (0..3).map(|_| gen::gen_out_frame(rng, mode, stats)).collect(),
+                    buffered_ka: rng.chance(1, 2),
                 });
             }
             if rng.chance(1, 60) {
@@ -601,9 +679,29 @@ impl Prop for C08 {
                         break 'steps;
                     }
                 },
-                UStep::Bounce { lost: _, after } => {
-                    let Some(UEv::Bounced { lost, after: results }) = next(&mut ev_i) else { break 'steps };
+                UStep::Bounce { lost: _, after, buffered_ka } => {
+                    let Some(UEv::Bounced { lost, after: results, pre, down, tail }) = next(&mut ev_i) else { break 'steps };
                     rep.fault("peer_crash_and_restart");
+                    let mut pongs_allowed = 0usize;
+                    if *buffered_ka {
+                        rep.probe("crash_with_buffered_keepalive");
+                        match pre {
+                            Some(AppRes::Pkt(d)) if d.contains("RequestId(65)") => {},
+                            other => {
+                                rep.violations.push(v("udp.wrong_packet", format!("{} first packet of the datagram sent just before the peer crashed: {:?}", tag, other)));
+                                break 'steps;
+                            },
+                        }
+                        match down {
+                            Some(AppRes::Io { .. }) => rep.probe("reply_met_icmp_error"),
+                            Some(AppRes::Pkt(d)) if d.contains("subt: None") => {},
+                            other => {
+                                rep.violations.push(v("udp.read_failed", format!("{} reading the buffered keep-alive while the peer was down: {:?}", tag, other)));
+                                break 'steps;
+                            },
+                        }
+                        pongs_allowed = 1;
+                    }
                     h.write(lost.class().as_bytes());
                     let exps: Vec<String> = after
                         .iter()
@@ -617,6 +715,13 @@ impl Prop for C08 {
                     for (k, ((res, got), exp)) in results.iter().zip(exps.iter()).enumerate() {
                         match res {
                             AppRes::Done => {
+                                // a keep-alive reply still owed may go out first, as its own datagram
+                                let mut got = got.clone();
+                                if pongs_allowed > 0 && got.first() == Some(&pong) {
+                                    let _ = got.remove(0);
+                                    pongs_allowed -= 1;
+                                }
+                                let got = &got;
                                 if got != &vec![exp.clone()] {
                                     rep.violations.push(v(
                                         "udp.write_datagram",
@@ -636,6 +741,37 @@ impl Prop for C08 {
                                 rep.violations.push(v("udp.write_failed", format!("{} write after the peer restarted: {:?}", tag, other)));
                                 break 'steps;
                             },
+                        }
+                    }
+                    // buffered keep-alive: whatever is still owed is delivered before the sentinel, and
+                    // nothing but (at most one) reply datagram is sent meanwhile
+                    if *buffered_ka {
+                        let mut seen_ka = matches!(down, Some(AppRes::Pkt(_)));
+                        let mut ok_end = false;
+                        for (r, got) in tail {
+                            for g in got {
+                                if *g == pong && pongs_allowed > 0 {
+                                    pongs_allowed -= 1;
+                                } else {
+                                    rep.violations.push(v("udp.unsolicited_datagram", format!("{} after the restart the peer received {} during a read", tag, g)));
+                                    break 'steps;
+                                }
+                            }
+                            match r {
+                                AppRes::Pkt(d) if d.contains("RequestId(66)") => {
+                                    ok_end = true;
+                                    break;
+                                },
+                                AppRes::Pkt(d) if d.contains("subt: None") && !seen_ka => seen_ka = true,
+                                other => {
+                                    rep.violations.push(v("udp.wrong_packet", format!("{} after the restart, before the sentinel: {:?}", tag, other)));
+                                    break 'steps;
+                                },
+                            }
+                        }
+                        if !ok_end {
+                            rep.violations.push(v("udp.read_failed", format!("{} the sentinel sent by the restarted peer was never delivered: {:?}", tag, tail.iter().map(|t| t.0.class()).collect::<Vec<_>>())));
+                            break 'steps;
                         }
                     }
                     // the last write after a restart must get through (the queued error is spent)
@@ -800,6 +936,7 @@ impl Prop for C08 {
             "datagram_loss_dup_or_reorder",
             "recv_timeout_error",
             "peer_crash_and_restart",
+            "crash_with_buffered_keepalive",
             "unencodable_packet_written",
             "blocking_runs",
             "tokio_runs",
